@@ -116,6 +116,14 @@ def _unbounded_leg(ns, res, rng, count, node):
         g = gq.G(rng, prefix, None, B, None)
         q = g.gen_select(feats)
         q['top'] = None
+        if 'unnest' in feats and rng.random() < 0.6:
+            # a fan-out that depends on the position of the record: every k-th record (or all but every k-th) contributes nothing, so the n-th output
+            # record does not come from the n-th input record
+            for it in q['items']:
+                if it['kind'] == 'unnest':
+                    every = ['cmp', '==', ['arith', '%', ['NR'], ['int', rng.choice([2, 3])]], ['int', rng.choice([0, 1])]]
+                    it['expr'] = ['cond', every, it['expr'], ['list', []]] if rng.random() < 0.5 else ['cond', every, ['list', []], it['expr']]
+            res.count('unbounded_cases_with_positional_fan_out')
         for n in range(0, 6):
             qn = copy.deepcopy(q)
             qn['top'] = n
